@@ -154,12 +154,13 @@ type (
 )
 
 var _ unsafe.Pointer
+var _ sync.Mutex
 '''
 
 
 def write_gen(d, ts):
     prelude = ex.PRELUDE
-    ex.PRELUDE = prelude.replace('\t"unicode"\n)', '\t"unicode"\n\t"unsafe"\n)') + GEN_EXTRA
+    ex.PRELUDE = prelude.replace('\t"strings"\n', '\t"strings"\n\t"sync"\n').replace('\t"unicode"\n)', '\t"unicode"\n\t"unsafe"\n)') + GEN_EXTRA
     try:
         ex.write_package(d, "c09gen", ts)
     finally:
@@ -187,6 +188,8 @@ def extra_templates():
     add([], body="\tvar i interface{} = *new(float32)\n\t_, ok := i.(float32)\n\treturn fmt.Sprint(ok, fx())")
     add([], body="\tvar i interface{} = *new(int)\n\t_, ok := i.(int)\n\treturn fmt.Sprint(ok, fx())")
     add([("x", "int"), ("y", "int")], body="\tvar f float64 = float64(x)\n\tf = f + 1\n\tvar u uint8 = uint8(y)\n\tu = u << 1\n\treturn fmt.Sprint(f, u, fx())")
+    # a rule with a fix fires, then report-only rules of the same group fire in the same file (a fix must not travel)
+    add([("s", "string"), ("t", "string")], body="\tvar wg sync.WaitGroup\n\twg.Add(1)\n\tok := strings.Index(s, t) >= 0\n\twg.Add(-1)\n\tu := strings.Replace(s, \"a\", t, -1)\n\tb := strings.Index(u, t) != -1\n\tr := strings.Map(unicode.ToTitle, s)\n\treturn fmt.Sprint(ok, u, b, r, fx())")
     # strings.Cut: the index variable lives on after the statements
     add([("s", "string"), ("t", "string")], body="\tvar k, v string\n\ti := strings.Index(s, \"=\")\n\tk, v = s[:i], s[i+1:]\n\treturn fmt.Sprint(k, v, i, fx())")
     return ts
@@ -222,6 +225,10 @@ def judge(ctx, s, corpus):
         want = "// " + s["flagged"][2:]
         if s["repl"] != want:
             ctx.fail("CommentFixDamaged commentFormatting", "the fix for the comment `%s` (%s) is `%s`, not `%s`" % (short(s["flagged"], 60), where, short(s["repl"], 60), short(want, 60)), rep)
+        return
+    if kind == "fix" and s["located"] and not s.get("posInRange", True):
+        ctx.fail("FixElsewhere %s" % chk, "%s reports `%s` at %s but its fix replaces `%s` (bytes %d-%d), which does not contain the reported position"
+                 % (chk, short(s["text"], 70), where, short(s["flagged"], 60), s["from"], s["to"]), rep)
         return
     if not s["located"]:
         if "{...}" in s["repl"]:
